@@ -1,7 +1,7 @@
 # Builds the shimmed SDK from /repo's current working tree plus the simulator
 # core and one binary per engine. Everything lands under /verif/build.
 REPO ?= /repo
-V    := /verif
+V    ?= /verif
 B    := $(V)/build
 CXX  := g++
 SAN  ?= -fsanitize=address,undefined -fno-sanitize=nonnull-attribute -fno-sanitize-recover=undefined
@@ -9,8 +9,12 @@ OPT  ?= -O1 -g1 -fno-omit-frame-pointer
 DEFS := -DOPENTELEMETRY_ABI_VERSION_NO=1 -DNDEBUG -DOPENTELEMETRY_CPP_VERIF_SIM
 INCS := -I$(REPO)/api/include -I$(REPO)/sdk/include -I$(REPO)/sdk -I$(V)/sim
 CXXFLAGS_COMMON := -std=gnu++17 $(OPT) $(SAN) -Wno-deprecated-declarations -pthread
+# call-boundary hooks: every function defined in the repository (not libstdc++, not the harness)
+# calls __cyg_profile_func_enter/exit, which the simulator core turns into preemption candidates
+INSTR := -finstrument-functions -finstrument-functions-exclude-file-list=/usr/,$(V)/,vsim_prefix.h
+WRAP  := -Wl,--wrap=__cxa_guard_acquire,--wrap=__cxa_guard_release,--wrap=__cxa_guard_abort
 # translation units that see the shims (SDK + scenarios)
-SHIM_FLAGS := $(CXXFLAGS_COMMON) $(DEFS) $(INCS) -include $(B)/pch/vsim_prefix.h -Winvalid-pch
+SHIM_FLAGS := $(CXXFLAGS_COMMON) $(INSTR) $(DEFS) $(INCS) -include $(B)/pch/vsim_prefix.h -Winvalid-pch
 # translation units of the simulator itself (real primitives)
 CORE_FLAGS := $(CXXFLAGS_COMMON) -I$(V)/sim
 
@@ -35,7 +39,7 @@ $(B)/pch/vsim_prefix.h: $(V)/sim/vsim_prefix.h $(V)/sim/vsim.h
 	cp $(V)/sim/vsim_prefix.h $@
 
 $(B)/pch/vsim_prefix.h.gch: $(B)/pch/vsim_prefix.h
-	$(CXX) $(CXXFLAGS_COMMON) $(DEFS) $(INCS) -x c++-header $< -o $@
+	$(CXX) $(CXXFLAGS_COMMON) $(INSTR) $(DEFS) $(INCS) -x c++-header $< -o $@
 
 $(B)/sdk/%.o: $(REPO)/sdk/%.cc $(B)/pch/vsim_prefix.h.gch
 	@mkdir -p $(dir $@)
@@ -55,7 +59,7 @@ $(B)/eng/%.o: $(V)/engines/%.cc $(B)/pch/vsim_prefix.h.gch $(wildcard $(V)/sim/*
 
 $(B)/bin/%: $(B)/eng/%.o $(CORE_OBJS) $(B)/libsdk.a
 	@mkdir -p $(dir $@)
-	$(CXX) $(CXXFLAGS_COMMON) -o $@ $< $(CORE_OBJS) $(B)/libsdk.a
+	$(CXX) $(CXXFLAGS_COMMON) $(WRAP) -o $@ $< $(CORE_OBJS) $(B)/libsdk.a
 
 $(B)/bin/hashmerge: $(V)/sim/hashmerge.cc
 	@mkdir -p $(dir $@)
